@@ -32,10 +32,12 @@ GAP_MAX = 1e-5  # certificate interval width above which nothing is asserted
 TOL_BELL = 1e-3  # relative to scale = sum |coefficient| * |outcome values|
 
 RULE = (
-    "XOR games are drawn by Hypothesis: q0, q1 in 1..5 (rectangular allowed), each row / column switched off with "
-    "probability 1/4 (zero-probability rows and columns, at least one cell kept), probabilities = integer counts over "
-    "2^m (m in {3,6,10}, stars-and-bars cuts) on the kept cells so that the matrix sums to 1 exactly, a 0/1 predicate "
-    "drawn bit by bit, tol omitted or one of 1e-12/1e-8/1e-4, constructor argument form positional or keyword, "
+    "XOR games are drawn by Hypothesis: shape (q0, q1) from all 25 shapes in 1..5 x 1..5 (rectangular allowed), "
+    "optionally one or two zero-probability rows / columns, probabilities = integer counts over 2^m on the kept cells "
+    "(stars-and-bars cuts drawn one by one, m in {3,6,10}; multinomial counts from a drawn seed with Dirichlet "
+    "alpha in {0.5,1,2,8}, m in {6,10}; or uniform) so that the matrix sums to 1 exactly, a 0/1 predicate "
+    "drawn bit by bit / from a seed / from two frustrated families (AND, inner product) behind local flips, predicate "
+    "dtype int/bool/float, tol omitted or one of 1e-12/1e-8/1e-4, constructor argument form positional or keyword, "
     "reps 1..3. A game is non-trivial when it is rectangular or its distribution is not uniform on its support AND an "
     "achieved quantum value (alternating maximisation, numpy) exceeds the brute-force classical value by >= 0.01; "
     "conversion / validation cases are non-trivial when rectangular or reps >= 2 / when the defect is the only one "
@@ -115,6 +117,7 @@ def _make(case, prob=None, pred=None, reps=None):
     prob = p0 if prob is None else prob
     pred = f0 if pred is None else pred
     reps = case.get("reps", 1) if reps is None else reps
+    pred = np.asarray(pred).astype({"int": int, "bool": bool, "float": float}[case.get("pred_dtype", "int")], copy=False)
     tol = case.get("tol")
     form = case.get("form", "kw")
     if form == "pos":
@@ -209,6 +212,7 @@ def _xor_case(draw, qmax=5, cells_max=25, with_tol=True):
         case["tol"] = draw(st.sampled_from([None, 1e-8, None, 1e-12, 1e-4]))
         case["form"] = draw(st.sampled_from(["kw", "pos"]))
         case["explicit_reps"] = draw(st.booleans())
+        case["pred_dtype"] = draw(st.sampled_from(["int", "int", "bool", "float"]))
     return case
 
 
